@@ -2,527 +2,29 @@
 
 package db
 
-// Environment for the merge-walk harnesses: a datastore.Txn over key-value models, a block table, and a
-// symbolic commit DAG.
-//
-// Two modes with identical observable behaviour:
-//   - inside symgo (vSymbolic() == true): CIDs are synthetic (first digest byte = rank in the chosen hash
-//     order), blocks live in a table, and LinkSystem.Load / GetFromNode / GenerateLink / loadBlockFromBlockStore
-//     are redirected to the table (dag-cbor and sha256 are reflection / hashing code outside SMT reach);
-//   - natively (replay, translator validation): blocks are really encoded with dag-cbor, filed under their real
-//     CIDs in the real blockstore implementation over the key-value model, and the salt of the document id is
-//     searched until the real CIDs of the composite commits are in the hash order the solver chose.
+// db-specific part of the merge-walk environment (the generic part is /verif/harness/_common/dagenv.go.tmpl)
 
 import (
-	"bytes"
 	"container/list"
-	"context"
-	"strconv"
 
-	"github.com/fxamacker/cbor/v2"
-	blocks "github.com/ipfs/go-block-format"
 	"github.com/ipfs/go-cid"
-	"github.com/ipld/go-ipld-prime/datamodel"
-	"github.com/ipld/go-ipld-prime/linking"
 	cidlink "github.com/ipld/go-ipld-prime/linking/cid"
-	"github.com/sourcenetwork/corekv"
 
-	"github.com/sourcenetwork/defradb/client"
-	"github.com/sourcenetwork/defradb/internal/core"
 	coreblock "github.com/sourcenetwork/defradb/internal/core/block"
-	"github.com/sourcenetwork/defradb/internal/core/crdt"
-	"github.com/sourcenetwork/defradb/internal/datastore"
-	"github.com/sourcenetwork/defradb/internal/db/base"
-	"github.com/sourcenetwork/defradb/internal/db/id"
-	"github.com/sourcenetwork/defradb/internal/keys"
 )
 
-// ---- transaction model ----
-
-type vTxn struct {
-	datastore.Txn
-	data, head, system, peer, root *vKV
-	bs, enc                        datastore.Blockstore
-	successFns                     []func()
-	commits, discards              int
-}
-
-func (t *vTxn) Datastore() corekv.ReaderWriter   { return t.data }
-func (t *vTxn) Headstore() corekv.ReaderWriter   { return t.head }
-func (t *vTxn) Systemstore() corekv.ReaderWriter { return t.system }
-func (t *vTxn) Peerstore() corekv.ReaderWriter   { return t.peer }
-func (t *vTxn) Rootstore() corekv.ReaderWriter   { return t.root }
-func (t *vTxn) Blockstore() datastore.Blockstore { return t.bs }
-func (t *vTxn) Encstore() datastore.Blockstore   { return t.enc }
-func (t *vTxn) ID() uint64                       { return 1 }
-func (t *vTxn) OnSuccess(fn func())              { t.successFns = append(t.successFns, fn) }
-func (t *vTxn) OnError(fn func())                {}
-func (t *vTxn) OnDiscard(fn func())              {}
-func (t *vTxn) Commit(ctx context.Context) error { t.commits++; return nil }
-func (t *vTxn) Discard(ctx context.Context)      { t.discards++ }
-
-// blockstore model used inside symgo: only membership is observable
-type vBS struct {
-	datastore.Blockstore
-	env *vEnv
-}
-
-func (b *vBS) Has(ctx context.Context, c cid.Cid) (bool, error) {
-	if b.env.faults.hit() {
-		return false, vErrInjected
-	}
-	return b.env.find(c) >= 0, nil
-}
-
-// ---- commit DAG ----
-
-const (
-	vFieldLWW = iota
-	vFieldCounter
-)
-
-type vCommit struct {
-	parents []int
-	height  uint64
-	del     bool
-	// field operation carried by the commit (absent on delete commits)
-	payload []byte // LWW
-	inc     int64  // counter
-	nonce   int64
-	// blocks
-	comp, field       *coreblock.Block
-	compCid, fieldCid cid.Cid
-}
-
-type vEnv struct {
-	ctx       context.Context
-	txn       *vTxn
-	col       *collection
-	docID     string
-	fieldKind int
-	commits   []*vCommit
-	perm      []int // perm[i] = rank of composite commit i in the hash order
-	faults    *vFaults
-	hasField  bool // the receiver's collection definition knows the field
-	// table (symgo mode)
-	tabCids   []cid.Cid
-	tabBlocks []*coreblock.Block
-}
-
-func (e *vEnv) find(c cid.Cid) int {
-	for i := range e.tabCids {
-		if e.tabCids[i] == c {
-			return i
-		}
-	}
-	return -1
-}
-
-// redirect targets (symgo mode only; natively the real functions run)
-var vCurEnv *vEnv
-
-type vNode struct {
-	datamodel.Node
-	blk *coreblock.Block
-}
-
-func vLoad(lsys *linking.LinkSystem, lc linking.LinkContext, lnk datamodel.Link, np datamodel.NodePrototype) (datamodel.Node, error) {
-	if vCurEnv.faults.hit() {
-		return nil, vErrInjected
-	}
-	c := lnk.(cidlink.Link).Cid
-	i := vCurEnv.find(c)
-	if i < 0 {
-		return nil, vErrNotInTable
-	}
-	return vNode{blk: vCurEnv.tabBlocks[i]}, nil
-}
-
-var vErrNotInTable = corekv.ErrNotFound
-
-func vGetFromNode(nd datamodel.Node) (*coreblock.Block, error) {
-	return nd.(vNode).blk, nil
-}
-
-func vGenerateLink(b *coreblock.Block) (cidlink.Link, error) {
-	for i := range vCurEnv.tabBlocks {
-		if vCurEnv.tabBlocks[i] == b {
-			return cidlink.Link{Cid: vCurEnv.tabCids[i]}, nil
-		}
-	}
-	panic("vGenerateLink: block not in table")
-}
-
-func vLoadBlockFromBlockStore(ctx context.Context, c cid.Cid) (*coreblock.Block, error) {
-	if vCurEnv.faults.hit() {
-		return nil, vErrInjected
-	}
-	i := vCurEnv.find(c)
-	if i < 0 {
-		return nil, vErrNotInTable
-	}
-	return vCurEnv.tabBlocks[i], nil
-}
-
-// synthetic CID: a well-formed CIDv1 (dag-cbor, sha2-256) whose digest starts with (rank, idx)
-func vFakeCid(rank, idx int) cid.Cid {
-	mh := make([]byte, 34)
-	mh[0], mh[1] = 0x12, 0x20
-	mh[2], mh[3] = byte(rank), byte(idx)
-	return cid.NewCidV1(cid.DagCBOR, mh)
-}
-
-const vColID = "bafyverifcollection"
-const vFieldName = "f"
-
-func vDefinition(kind int, hasField bool) client.CollectionDefinition {
-	def := client.CollectionDefinition{
-		Version: client.CollectionVersion{Name: "T", VersionID: "sv1", CollectionID: vColID, IsActive: true},
-		Schema:  client.SchemaDescription{Name: "T", VersionID: "sv1", Root: "sv1"},
-	}
-	if hasField {
-		sf := client.SchemaFieldDescription{Name: vFieldName}
-		if kind == vFieldCounter {
-			sf.Kind, sf.Typ = client.FieldKind_NILLABLE_INT, client.PN_COUNTER
-		} else {
-			sf.Kind, sf.Typ = client.FieldKind_NILLABLE_STRING, client.LWW_REGISTER
-		}
-		def.Schema.Fields = []client.SchemaFieldDescription{sf}
-		def.Version.Fields = []client.CollectionFieldDescription{{Name: vFieldName}}
-	}
-	return def
-}
-
-func vNewEnv(kind int, hasField bool) *vEnv {
-	e := &vEnv{fieldKind: kind, hasField: hasField, docID: "bae-verif-0"}
-	root := &vKV{}
-	e.txn = &vTxn{data: &vKV{}, head: &vKV{}, system: &vKV{}, peer: &vKV{}, root: root}
-	if vSymbolic() {
-		e.txn.bs = &vBS{env: e}
-	} else {
-		e.txn.bs = datastore.BlockstoreFrom(root)
-		e.txn.enc = datastore.EncstoreFrom(root)
-	}
-	ctx := datastore.CtxSetTxn(context.Background(), e.txn)
-	ctx = id.InitCollectionShortIDCache(ctx)
-	ctx = id.InitFieldShortIDCache(ctx)
-	e.ctx = ctx
-	e.col = &collection{def: vDefinition(kind, hasField)}
-	// short ids through the real code (sequences over the system store)
-	if err := id.SetShortCollectionID(ctx, vColID); err != nil {
-		panic("SetShortCollectionID")
-	}
-	if hasField {
-		if err := id.SetShortFieldID(ctx, 1, vFieldName); err != nil {
-			panic("SetShortFieldID")
-		}
-	}
-	vCurEnv = e
-	return e
-}
-
-// vDAG: commits 0..n-1; parents of commit i>0 are 1 or 2 earlier commits (solver-chosen)
-// vFixedParents parses a DAG given by the runner: "-|0|1|2|0|4" lists the parents of commits 0..n-1
-// ("-" none, "1,2" two parents)
-func vFixedParents(spec string) [][]int {
-	var out [][]int
-	cur := []int{}
-	num, has := 0, false
-	flush := func() {
-		if has {
-			cur = append(cur, num)
-		}
-		num, has = 0, false
-	}
-	for i := 0; i < len(spec); i++ {
-		switch ch := spec[i]; {
-		case ch >= '0' && ch <= '9':
-			num, has = num*10+int(ch-'0'), true
-		case ch == ',':
-			flush()
-		case ch == '|':
-			flush()
-			out = append(out, cur)
-			cur = []int{}
-		}
-	}
-	flush()
-	return append(out, cur)
-}
-
-func (e *vEnv) vDAG(n int, delIdx int) {
-	var fixed [][]int
-	if spec := vConfStr("dag"); spec != "" {
-		fixed = vFixedParents(spec)
-	}
-	for i := 0; i < n; i++ {
-		c := &vCommit{}
-		if fixed != nil {
-			c.parents = fixed[i]
-		} else if i > 0 {
-			p := vChoose("parent", i)
-			// nobody writes on top of a delete: deleted documents reject local updates
-			vAssume(!e.commits[p].del)
-			c.parents = []int{p}
-			if i > 1 && vChoose("second", 2) == 1 {
-				q := vChoose("parent2", i-1)
-				if q >= p {
-					q++
-				}
-				// a second parent that is an ancestor of the first (or vice versa) cannot arise: heads are
-				// pairwise concurrent
-				vAssume(!e.isAncestor(q, p) && !e.isAncestor(p, q) && !e.commits[q].del)
-				c.parents = append(c.parents, q)
-			}
-		}
-		c.height = 1
-		for _, p := range c.parents {
-			if e.commits[p].height+1 > c.height {
-				c.height = e.commits[p].height + 1
-			}
-		}
-		c.del = i == delIdx
-		if !c.del {
-			if e.fieldKind == vFieldCounter {
-				c.inc = int64(vI16("inc")) // increments of 16 bits keep the 64-bit sums cheap for the solver
-				c.nonce = int64(i)
-			} else {
-				c.payload = []byte{vU8("payload")}
-				// two register writes with the same parents and the same payload are one and the same commit
-				// (identical content, identical hash): distinct commits differ
-				for j := 0; j < i; j++ {
-					o := e.commits[j]
-					if !o.del && vSameParents(o.parents, c.parents) {
-						vAssume(o.payload[0] != c.payload[0])
-					}
-				}
-			}
-		}
-		e.commits = append(e.commits, c)
-	}
-	// nobody writes to a deleted document: a delete commit has no descendants on the deleting node, but
-	// concurrent commits exist — both are covered since parents are arbitrary
-}
-
-func vSameParents(a, b []int) bool {
-	if len(a) != len(b) {
-		return false
-	}
-	for _, x := range a {
-		found := false
-		for _, y := range b {
-			if x == y {
-				found = true
-			}
-		}
-		if !found {
-			return false
-		}
-	}
-	return true
-}
-
-func (e *vEnv) isAncestor(a, b int) bool { // a is an ancestor-or-self of b
-	if a == b {
-		return true
-	}
-	for _, p := range e.commits[b].parents {
-		if e.isAncestor(a, p) {
-			return true
-		}
-	}
-	return false
-}
-
-func (e *vEnv) ancestors(x int, into []bool) {
-	if into[x] {
-		return
-	}
-	into[x] = true
-	for _, p := range e.commits[x].parents {
-		e.ancestors(p, into)
-	}
-}
-
-func (e *vEnv) fieldDelta(c *vCommit, fieldHeight uint64) core.Delta {
-	if e.fieldKind == vFieldCounter {
-		b, err := cbor.Marshal(c.inc)
-		if err != nil {
-			panic("cbor")
-		}
-		// the nonce (random in Counter.Delta for updates) makes equal increments by different nodes distinct commits
-		return &crdt.CounterDelta{DocID: []byte(e.docID), FieldName: vFieldName, Priority: fieldHeight, SchemaVersionID: "sv1", Data: b, Nonce: c.nonce}
-	}
-	return &crdt.LWWDelta{DocID: []byte(e.docID), FieldName: vFieldName, Priority: fieldHeight, SchemaVersionID: "sv1", Data: c.payload}
-}
-
-// latest field blocks among the ancestors of the given parents (the field's own Merkle clock heads)
-func (e *vEnv) fieldHeads(parents []int) []int {
-	anc := make([]bool, len(e.commits))
-	for _, p := range parents {
-		e.ancestors(p, anc)
-	}
-	var heads []int
-	for i := range e.commits {
-		if !anc[i] || e.commits[i].del {
-			continue
-		}
-		maximal := true
-		for j := range e.commits {
-			if j != i && anc[j] && !e.commits[j].del && e.isAncestor(i, j) {
-				maximal = false
-			}
-		}
-		if maximal {
-			heads = append(heads, i)
-		}
-	}
-	return heads
-}
-
-func (e *vEnv) fieldHeight(i int) uint64 {
-	h := uint64(0)
-	for _, p := range e.fieldHeads(e.commits[i].parents) {
-		if fh := e.fieldHeight(p); fh > h {
-			h = fh
-		}
-	}
-	return h + 1
-}
-
-// build all blocks; returns false (natively) when the real CIDs are not in the wanted hash order
-func (e *vEnv) buildBlocks() bool {
-	e.tabCids, e.tabBlocks = nil, nil
-	sym := vSymbolic()
-	for i, c := range e.commits {
-		var links []coreblock.DAGLink
-		if !c.del {
-			var fheads []cid.Cid
-			for _, p := range e.fieldHeads(c.parents) {
-				fheads = append(fheads, e.commits[p].fieldCid)
-			}
-			c.field = coreblock.New(e.fieldDelta(c, e.fieldHeight(i)), nil, fheads...)
-			if sym {
-				c.fieldCid = vFakeCid(100+i, i)
-			} else {
-				c.fieldCid = e.store(c.field)
-			}
-			e.tabCids, e.tabBlocks = append(e.tabCids, c.fieldCid), append(e.tabBlocks, c.field)
-			links = []coreblock.DAGLink{coreblock.NewDAGLink(vFieldName, cidlink.Link{Cid: c.fieldCid})}
-		}
-		status := client.Active
-		if c.del {
-			status = client.Deleted
-		}
-		delta := &crdt.DocCompositeDelta{DocID: []byte(e.docID), Priority: c.height, SchemaVersionID: "sv1", Status: status}
-		var heads []cid.Cid
-		for _, p := range c.parents {
-			heads = append(heads, e.commits[p].compCid)
-		}
-		c.comp = coreblock.New(delta, links, heads...)
-		if sym {
-			c.compCid = vFakeCid(e.perm[i], i)
-		} else {
-			c.compCid = e.store(c.comp)
-		}
-		e.tabCids, e.tabBlocks = append(e.tabCids, c.compCid), append(e.tabBlocks, c.comp)
-	}
-	if sym {
-		return true
-	}
-	// natively: is the order of the real composite CIDs the wanted one?
-	for i := range e.commits {
-		for j := range e.commits {
-			if i != j {
-				less := bytes.Compare(e.commits[i].compCid.Bytes(), e.commits[j].compCid.Bytes()) < 0
-				if less != (e.perm[i] < e.perm[j]) {
-					return false
-				}
-			}
-		}
-	}
-	return true
-}
-
-// natively: encode the block for real and file it under its real CID in the real blockstore
-func (e *vEnv) store(b *coreblock.Block) cid.Cid {
-	lnk, err := b.GenerateLink()
-	if err != nil {
-		panic("GenerateLink")
-	}
-	raw, err := b.Marshal()
-	if err != nil {
-		panic("Marshal")
-	}
-	blk, err := blocks.NewBlockWithCid(raw, lnk.Cid)
-	if err != nil {
-		panic("NewBlockWithCid")
-	}
-	if err := e.txn.bs.Put(e.ctx, blk); err != nil {
-		panic("blockstore put")
-	}
-	return lnk.Cid
-}
-
-// vHashOrder: the relative order of the composite commits' content hashes is an input
-func (e *vEnv) vHashOrder() {
-	n := len(e.commits)
-	rest := make([]int, n)
-	for i := range rest {
-		rest[i] = i
-	}
-	e.perm = make([]int, n)
-	if vConfStr("orders") == "two" {
-		// larger histories: only the identity and the reversed hash order (every pair of commits is seen in
-		// both relative orders)
-		rev := vChoose("hashorder", 2) == 1
-		for i := 0; i < n; i++ {
-			e.perm[i] = i + 1
-			if rev {
-				e.perm[i] = n - i
-			}
-		}
-		return
-	}
-	for r := 0; r < n; r++ {
-		k := vChoose("hashorder", len(rest))
-		e.perm[rest[k]] = r + 1
-		rest = append(rest[:k:k], rest[k+1:]...)
-	}
-}
-
-func (e *vEnv) build() {
-	e.vHashOrder()
-	if vSymbolic() {
-		e.buildBlocks()
-		return
-	}
-	for salt := 0; salt < 20000; salt++ {
-		e.docID = "bae-verif-" + strconv.Itoa(salt)
-		root := &vKV{}
-		e.txn.root = root
-		e.txn.bs = datastore.BlockstoreFrom(root)
-		if e.buildBlocks() {
-			return
-		}
-	}
-	panic("could not realise the hash order natively")
-}
-
-func (e *vEnv) headKey() keys.HeadstoreKey {
-	return keys.HeadstoreDocKey{DocID: e.docID, FieldID: core.COMPOSITE_NAMESPACE}
-}
+func (e *vEnv) collection() *collection { return &collection{def: e.def} }
 
 func (e *vEnv) newMergeProcessor() *mergeProcessor {
 	if !vSymbolic() {
-		mp, err := (&DB{}).newMergeProcessor(e.ctx, e.col)
+		mp, err := (&DB{}).newMergeProcessor(e.ctx, e.collection())
 		if err != nil {
 			panic("newMergeProcessor")
 		}
 		return mp
 	}
 	return &mergeProcessor{
-		col:                       e.col,
+		col:                       e.collection(),
 		docIDs:                    make(map[string]struct{}),
 		composites:                list.New(),
 		queued:                    make(map[cid.Cid]struct{}),
@@ -544,55 +46,3 @@ func (e *vEnv) deliver(x int) (*mergeProcessor, error) {
 	return mp, mp.mergeComposites(e.ctx)
 }
 
-// ---- observation of the replica state at the keys the fetcher reads ----
-
-func (e *vEnv) fieldKey() keys.DataStoreKey {
-	return keys.DataStoreKey{CollectionShortID: 1, DocID: e.docID, FieldID: "1"}
-}
-
-func (e *vEnv) isDeleted() bool {
-	m, ok := e.txn.data.peek(e.fieldKey().WithFieldID(core.COMPOSITE_NAMESPACE).ToPrimaryDataStoreKey().Bytes())
-	return ok && len(m) == 1 && m[0] == base.DeletedObjectMarker
-}
-
-func (e *vEnv) exists() bool {
-	_, ok := e.txn.data.peek(e.fieldKey().ToPrimaryDataStoreKey().Bytes())
-	return ok
-}
-
-func (e *vEnv) rawValue(deleted bool) ([]byte, bool) {
-	k := e.fieldKey().WithValueFlag()
-	if deleted {
-		k = k.WithDeletedFlag()
-	}
-	return e.txn.data.peek(k.Bytes())
-}
-
-func (e *vEnv) counterValue(deleted bool) (int64, bool) {
-	raw, ok := e.rawValue(deleted)
-	if !ok {
-		return 0, false
-	}
-	var v int64
-	if cbor.Unmarshal(raw, &v) != nil {
-		return 0, false
-	}
-	return v, true
-}
-
-func (e *vEnv) compHeads() []cid.Cid {
-	cids, err := getHeads(e.ctx, e.headKey())
-	if err != nil {
-		panic("getHeads")
-	}
-	return cids
-}
-
-func (e *vEnv) indexOfComp(c cid.Cid) int {
-	for i := range e.commits {
-		if e.commits[i].compCid == c {
-			return i
-		}
-	}
-	return -1
-}
